@@ -1035,6 +1035,7 @@ class Project:
         if copytree is None:
             copytree = shutil.copytree
         dst = self.open_job(job.statepoint())
+        existed = os.path.exists(dst.path)
         try:
             copytree(job.path, dst.path)
         except OSError as error:
@@ -1043,8 +1044,10 @@ class Project:
             elif error.errno == errno.ENOENT:
                 raise ValueError("Source job not initialized.")
             else:
-                # Do not leave an incomplete copy behind, it would look like a valid job.
-                shutil.rmtree(dst.path, ignore_errors=True)
+                # Do not leave an incomplete copy behind, it would look like a valid
+                # job. A job that existed before must never be touched.
+                if not existed:
+                    shutil.rmtree(dst.path, ignore_errors=True)
                 raise
         return dst
 
